@@ -66,7 +66,23 @@ CHECKS["C12"] = ("exploration",
                  "seeded hostile worlds: memory kind/length, io kind/length, IM, hostile patch at PC or at the top of memory, 0-3 malformed requests at boundaries or ticks; 1 in 4 driven by Run with a Step-driven twin and a tick budget; every scenario is non-trivial (distinct by fingerprint)",
                  ["implementation's invalid-code warning contains the word 'invalid'"])
 
-PENDING = ["C10", "C13", "C18"]
+CHECKS["C10"] = ("fault_enumeration",
+                 "(a) every scenario is executed twice and must produce the identical boundary-by-boundary record; (b) crash/restart with only durable state surviving: at EVERY Step boundary of each sampled world (structured programs and arbitrary byte strings, with NMI/INT events at boundaries, inside accesses and on RETI) a new CPU is built from copies of States, memory image, pending request and device cursors and must equal the original at every later boundary (registers incl. R, HALT, complete bus history, pending request, notifications) and in the final memory image; (c) 2..16 CPUs with their own programs and devices on their own goroutines, parked at every bus access and released one at a time by the seeded scheduler, each compared with its solo run; (d) side-car outside the family: the same worlds free-running in the -race binary, verdict = race detector.",
+                 "Restored CPU also receives the public HALT field (public state). The controlled scheduler serialises through channels and therefore cannot see data races; that part is delegated to the race side-car, which is runtime monitoring, not schedule-replayable (its replay file is the stress configuration) and is labelled so in the evidence. Long worlds in the thorough tier sample snapshot points with a stride.",
+                 "deterministic simulation: crash/restore at every boundary + seeded goroutine interleaving at bus accesses; race detector side-car",
+                 "DESIGN.md 4 C10",
+                 "2 of 3 scenarios: one world (20-300 Steps) x every snapshot boundary; 1 of 3: 2-16 worlds interleaved under a seeded pick sequence; race-binary workers: 2-16 free-running worlds; distinct non-trivial = (world, snapshot boundary) pairs that were restored and followed to the end, plus interleaved worlds with more context switches than CPUs",
+                 ["durable state = States + memory image + pending request + device cursors + HALT flag"])
+
+CHECKS["C18"] = ("exploration",
+                 "Generated CP/M programs (1-20 items: function 2, function 9 with strings of length 0..4096 of every byte value but '$' at non-overlapping addresses, filler, OUT to ports != 0, IN, finally JP 0 or an unsupported function) run on the real tinycpm.Memory/IO from the working tree with a simulated console. Fault-free console: bytes received = BDOS specification, exactly (exactly-once, ordered), also across Run re-entries after breakpoints on every return address, cancellations in the middle of a string (synctest bubble, so the cancellation instant is exact) and NMI / mode-1 requests served by transparent handlers inside the BDOS loop. Under injected console faults (Write returns (0,err), (0,nil) or (n,err) on chosen calls) the relaxation is narrow: accepted bytes form a subsequence of the expected stream and only failed calls' payload may be missing. Also: SP and caller code intact at every return, end state halted at 0xFF03, >= 1 warning line per offending port access and none otherwise.",
+                 "BDOS specification is three lines (fn 2 -> [E]; fn 9 -> bytes at DE up to '$'). Unsupported function numbers: only 'no panic, Run returns' is demanded (statement silent).",
+                 "deterministic simulation: real tinycpm devices, fault-injecting console writer, host re-entry/cancel/interrupt events",
+                 "DESIGN.md 4 C18",
+                 "seeded CP/M programs; 1/3 with breakpoints after every call, 1/3 with 1-3 failing console writes, 1/3 with NMI/INT at ticks, 1/8 with cancellations at ticks; non-trivial = program asks for at least one console byte; distinct by scenario fingerprint",
+                 ["BDOS behaviour as in the property statement"])
+
+PENDING = ["C13"]
 
 
 def chk(pid):
